@@ -155,16 +155,21 @@ def small_functions(prog, rep):
 
     for name, key, rev in (("sort_by_timestamp", "timestamp", False), ("sort_by_duration", "duration", True)):
         fi = prog.func(name)
+        from ..trace import deep as _deep
+
         rets = [n for n in walk_own(fi.node) if isinstance(n, ast.Return)]
         ok = False
-        if len(rets) == 1 and isinstance(rets[0].value, ast.Call) and norm(rets[0].value.func) == "sorted" and len(rets[0].value.args) == 1 and norm(rets[0].value.args[0]) == fi.params[0]:
-            kw = {k.arg: k.value for k in rets[0].value.keywords}
+        rv = _deep(rets[0].value, fi) if len(rets) == 1 and rets[0].value is not None else None
+        if rv is not None and isinstance(rv, ast.Call) and norm(rv.func) == "sorted" and len(rv.args) == 1 and norm(rv.args[0]) == fi.params[0]:
+            kw = {k.arg: k.value for k in rv.keywords}
             r = kw.get("reverse")
             ok = "key" in kw and _key_field(kw["key"]) == key and (bool(r.value) if isinstance(r, ast.Constant) else False) == rev and (r is None or isinstance(r, ast.Constant))
         rep.check(ok, "SHAPE", fi.short, "sorted", f"sorted(events, key={key}{', reverse=True' if rev else ''})", f"`{norm(rets[0].value) if rets else ''}` is not a sort of the whole input by {key} {'descending' if rev else 'ascending'}", fi.loc())
     fi = prog.func("limit_events")
     rets = [n for n in walk_own(fi.node) if isinstance(n, ast.Return)]
-    ok = len(rets) == 1 and norm(rets[0].value) == f"{fi.params[0]}[:{fi.params[1]}]"
+    from ..trace import deep as _deep
+
+    ok = len(rets) == 1 and rets[0].value is not None and norm(_deep(rets[0].value, fi)) == f"{fi.params[0]}[:{fi.params[1]}]"
     rep.check(ok, "SHAPE", fi.short, "prefix", "events[:count]", f"`{norm(rets[0].value) if rets else ''}` is not the prefix of length count", fi.loc())
     fi = prog.func("sum_durations")
     from ..trace import resolve as _rs
